@@ -260,6 +260,42 @@ def return_sites(fn):
     return out
 
 
+def exit_values(fn):
+    """[(anchor, value)] like return_sites, and a function written with a single exit (`T result; ... result = E; ... return
+    result;`) reads like one with early returns: a returned local that has several definitions is replaced by the definitions
+    that reach the return, each anchored at its own assignment (so that the facts and dominators asked about are those of the
+    place where the value is decided)."""
+    from . import flow
+    out = []
+    pos = fn.positions()
+    for anchor, v in return_sites(fn):
+        x = std_unwrap(v) if v is not None else None
+        if x is not None and x.kind == "DeclRefExpr" and x.get("local") and x.get("dk") != "ParmVar":
+            did = x.d["d"]
+            ndef = 0
+            for y in fn.all_nodes():
+                if y.kind == "BinaryOperator" and y.op == "=" and std_unwrap(y.children[0]).kind == "DeclRefExpr" \
+                        and std_unwrap(y.children[0]).d.get("d") == did:
+                    ndef += 1
+                if y.kind == "DeclStmt" and any(d_.get("d") == did and "init" in d_ for d_ in y.get("decls", [])):
+                    ndef += 1
+            if ndef >= 2:
+                defs = flow.reaching_defs(fn, did, anchor.id)
+                if defs and None not in defs:
+                    for dv in sorted(defs, key=lambda z: z.id):
+                        a = dv
+                        hops = 0
+                        par = fn.parent(dv)
+                        if par is not None and par.kind == "BinaryOperator" and par.op == "=" and par.id in pos:
+                            a = par
+                        while a is not None and a.id not in pos and hops < 8:
+                            a, hops = fn.parent(a), hops + 1
+                        out.append((a if a is not None else anchor, dv))
+                    continue
+        out.append((anchor, v))
+    return out
+
+
 def path(n, fn=None):
     """Access path of an lvalue/pointer expression as a tuple, or None.
 
@@ -741,6 +777,8 @@ def load_unit(name, extra_flags=(), src=None, root=None, tag=""):
     with open(out) as f:
         d = json.load(f)
     os.unlink(out)
+    for fd_ in d["functions"]:
+        desugar_bindings(fd_)
     from .roles import normalise
     renamed = normalise(d)
     if not os.environ.get("FRG_NO_INLINE"):
@@ -768,6 +806,41 @@ def load_unit(name, extra_flags=(), src=None, root=None, tag=""):
     u.renamed = renamed
     _unit_cache[key] = u
     return u
+
+
+def desugar_bindings(fd):
+    """`const auto [a, b] = helper(x);` over a class: a use of the binding `a` is the member access `<hidden object>.a`.  The
+    DeclRefExpr of the binding is rewritten in place into that MemberExpr (on a fresh reference to the hidden variable), so
+    that every rule -- taint, copy propagation, scalar replacement of small structs -- reads it like a named local struct."""
+    nodes = fd.get("nodes")
+    if not nodes:
+        return
+    bind = {}
+    for n in nodes:
+        if n.get("k") == "DeclStmt":
+            for dcl in n.get("decls", []):
+                for b in dcl.get("bindings", []) or []:
+                    if b.get("field"):
+                        bind[b["d"]] = (dcl, b)
+    if not bind:
+        return
+    for n in list(nodes):
+        if n.get("k") == "DeclRefExpr" and n.get("dk") == "Binding" and n.get("d") in bind:
+            dcl, b = bind[n["d"]]
+            ref = {"i": len(nodes), "k": "DeclRefExpr", "l": n.get("l"), "t": dcl.get("t"), "lv": True, "d": dcl["d"],
+                   "n": dcl.get("n") or "<decomposed>", "dk": "Var", "local": True, "c": []}
+            if dcl.get("rt"):
+                ref["prt"] = dcl["rt"]
+            nodes.append(ref)
+            keep = {k_: n[k_] for k_ in ("i", "l", "t", "lv", "bits", "sgn", "mac") if k_ in n}
+            n.clear()
+            n.update(keep)
+            n.update({"k": "MemberExpr", "c": [ref["i"]], "m": b["field"], "mk": "Field", "arrow": False,
+                      "via_binding": b.get("n")})
+            if b.get("md") is not None:
+                n["md"] = b["md"]
+            if b.get("mc"):
+                n["mc"] = b["mc"]
 
 
 def resolve_member_pointers(fd, callee_by_did=None):
